@@ -360,7 +360,13 @@ fn exec(op: &str, args: &[Sexp]) -> Ans {
 			let parsed_back = matches!(parse_field(&d), Some(Type::Object(n)) if n.as_inner() == js.as_java_str());
 			if cps_of(&d) == want && parsed_back { Ans::pass() } else { Ans::fail("obj") }
 		}
-("oracle-split-join", [s]) => {
+		("oracle-simple-name", [s]) => {
+			let c = tr!(s.as_cps());
+			let Ok(n) = ObjClassName::try_from(tr!(s.as_jstring())) else { return Ans::out_of_domain() };
+			let want = c.rsplit(|&x| x == 0x2f).next().unwrap_or(&[]).to_vec();
+			if cps_of(n.get_simple_name().as_inner()) == want { Ans::pass() } else { Ans::fail("simple") }
+		}
+		("oracle-split-join", [s]) => {
 			let Ok(s) = ObjClassName::try_from(tr!(s.as_jstring())) else { return Ans::out_of_domain() };
 			match s.split_inner_class_parent_and_name() {
 				None => Ans::out_of_domain(),
@@ -545,6 +551,7 @@ fn gen(r: &mut Rng, tier: Tier, out: &mut Out) {
 		if let GBase::Obj(n) = &one.base {
 			out.op("from-class", &[Sexp::cps(n)]);
 			out.op("simple-name", &[Sexp::cps(n)]);
+			out.op("oracle-simple-name", &[Sexp::cps(n)]);
 			out.op("split", &[Sexp::cps(n)]);
 			out.op("oracle-split-join", &[Sexp::cps(n)]);
 			out.op("oracle-from-class", &[Sexp::cps(n)]);
@@ -593,6 +600,7 @@ fn gen(r: &mut Rng, tier: Tier, out: &mut Out) {
 			}
 			out.lines.push(format!("split {}", Sexp::cps(s)));
 			out.lines.push(format!("simple-name {}", Sexp::cps(s)));
+			out.lines.push(format!("oracle-simple-name {}", Sexp::cps(s)));
 			if len <= 3 {
 				for op in ["oracle-split-join", "arr-dimension", "from-class", "oracle-dimension", "oracle-from-class"] { out.lines.push(format!("{op} {}", Sexp::cps(s))); }
 				for k in desc_kinds { out.lines.push(format!("name-valid {k} {}", Sexp::cps(s))); }
@@ -631,6 +639,7 @@ fn gen(r: &mut Rng, tier: Tier, out: &mut Out) {
 		}
 		out.op("split", &[Sexp::cps(s)]);
 		out.op("simple-name", &[Sexp::cps(s)]);
+		out.op("oracle-simple-name", &[Sexp::cps(s)]);
 		out.op("arr-dimension", &[Sexp::cps(s)]);
 		out.op("from-class", &[Sexp::cps(s)]);
 		out.op("oracle-split-join", &[Sexp::cps(s)]);
